@@ -145,6 +145,9 @@ def ensure_makefile():
 FORBIDDEN = re.compile(r"\b(Admitted|admit|Axiom|Parameter|Conjecture|Admit Obligations)\b|Unset Guard|bypass_check|type-in-type|impredicative-set|Unset Universe|Unset Positivity")
 
 
+SECTION_VAR = re.compile(r"^\s*(Variable|Variables|Hypothesis|Hypotheses|Context)\b")
+
+
 def forbidden_scan():
     bad = []
     for root, _, files in os.walk(COQ):
@@ -153,9 +156,14 @@ def forbidden_scan():
         for fn in files:
             if fn.endswith(".v"):
                 p = os.path.join(root, fn)
+                depth = 0      # Section nesting: Variable / Hypothesis / Context are only allowed inside a Section
                 for i, line in enumerate(open(p, errors="replace"), 1):
                     code = re.sub(r"\(\*.*?\*\)", "", line)
-                    if FORBIDDEN.search(code):
+                    if re.match(r"^\s*Section\b", code):
+                        depth += 1
+                    elif re.match(r"^\s*End\b", code) and depth > 0:
+                        depth -= 1
+                    if FORBIDDEN.search(code) or (depth == 0 and SECTION_VAR.match(code)):
                         bad.append("%s:%d: %s" % (os.path.relpath(p, COQ), i, line.strip()[:80]))
     return bad
 
